@@ -62,6 +62,8 @@ def export(repo=None, target_dir=None, out_dir=None, nonce='x'):
     target_dir = target_dir or os.path.join(CACHE, 'target')
     os.makedirs(target_dir, exist_ok=True)
     os.makedirs(out_dir, exist_ok=True)
+    with open(os.path.join(out_dir, 'ROOT'), 'w') as fh:
+        fh.write(os.path.abspath(repo))
     # cargo replays cached output and skips the wrapper on a warm target dir: drop the
     # workspace members' fingerprints so that every member is re-analysed.
     fp = os.path.join(target_dir, 'debug', '.fingerprint')
